@@ -270,6 +270,46 @@ ALL_FNS = {}      # name -> Fn  (callee lookup)
 METHODS = []      # dispatchable methods in order
 
 
+RET_TEXT = {"u64": " -> u64", "unit": "", "refarg": " -> &'a u64", "refdeps": " -> &'a u64",
+            "result": " -> Result<u64, u64>", "tracked": " -> Tracked", "opt": " -> Option<u64>",
+            "implfp": " -> impl Fp", "explicit_unit": " -> ()",
+            "boolr": " -> bool", "u8r": " -> u8", "u32r": " -> u32", "i32r": " -> i32", "usizer": " -> usize"}
+
+
+def ret_tail(fn, ch, depsb=None):
+    """last lines of an original function's body, by return kind"""
+    lines = []
+    if fn.ret in ("u64", "implfp"):
+        lines.append(f"sim::exit(__f, &[{ch}])")
+    elif fn.ret in SMALL_RETS:
+        mask, conv = SMALL_RETS[fn.ret]
+        lines.append(f"let __r = sim::exit_masked(__f, &[{ch}], {mask});")
+        lines.append(conv)
+    elif fn.ret in ("unit", "explicit_unit"):
+        lines.append(f"let _ = sim::exit(__f, &[{ch}]);")
+    elif fn.ret == "refarg":
+        rp = next(i for i, p in enumerate(fn.params) if p.kind == "refa")
+        n = fn.params[rp].binding(rp, fn.name)
+        lines.append(f"sim::exit_with(__f, *{n});")
+        lines.append(n)
+    elif fn.ret == "refdeps":
+        lines.append(f"let __r: &'a u64 = {depsb}.slot_ref();")
+        lines.append("sim::exit_with(__f, *__r);")
+        lines.append("__r")
+    elif fn.ret == "result":
+        lines.append(f"let __r = sim::exit(__f, &[{ch}]);")
+        lines.append("if __r & 1 == 0 { Ok(__r) } else { Err(__r) }")
+    elif fn.ret == "opt":
+        lines.append(f"let __r = sim::exit(__f, &[{ch}]);")
+        lines.append("Some(__r)")
+    elif fn.ret == "tracked":
+        lines.append(f"let __r = sim::exit(__f, &[{ch}]);")
+        lines.append("Tracked::new(__r)")
+    else:
+        raise ValueError(fn.ret)
+    return lines
+
+
 SMALL_RETS = {"boolr": ("1", "__r == 1"), "u8r": ("0xff", "__r as u8"), "u32r": ("0x7fff_ffff", "__r as u32"),
               "i32r": ("0x7fff_ffff", "__r as i32"), "usizer": ("0x7fff_ffff", "__r as usize")}
 
@@ -314,10 +354,7 @@ def fn_text(fn, indent="", in_impl=False):
     generics = lt + gens
     g = f"<{', '.join(generics)}>" if generics else ""
     params = ([first] if first else []) + [p.sig(i, fn.name) for i, p in enumerate(fn.params)]
-    ret = {"u64": " -> u64", "unit": "", "refarg": " -> &'a u64", "refdeps": " -> &'a u64",
-           "result": " -> Result<u64, u64>", "tracked": " -> Tracked", "opt": " -> Option<u64>",
-           "implfp": " -> impl Fp", "explicit_unit": " -> ()",
-           "boolr": " -> bool", "u8r": " -> u8", "u32r": " -> u32", "i32r": " -> i32", "usizer": " -> usize"}[fn.ret]
+    ret = RET_TEXT[fn.ret]
     w = f" where {', '.join(where)}" if where else ""
     asy = ("async " if fn.is_async else "") + ("unsafe " if fn.unsafe_ else "")
     vis = (fn.vis + " ") if fn.vis else ""
@@ -349,32 +386,7 @@ def fn_text(fn, indent="", in_impl=False):
     ch = ", ".join(children)
     if fn.big:
         lines.append("std::hint::black_box(&__big);")
-    if fn.ret in ("u64", "implfp"):
-        lines.append(f"sim::exit(__f, &[{ch}])")
-    elif fn.ret in SMALL_RETS:
-        mask, conv = SMALL_RETS[fn.ret]
-        lines.append(f"let __r = sim::exit_masked(__f, &[{ch}], {mask});")
-        lines.append(conv)
-    elif fn.ret in ("unit", "explicit_unit"):
-        lines.append(f"let _ = sim::exit(__f, &[{ch}]);")
-    elif fn.ret == "refarg":
-        rp = next(i for i, p in enumerate(fn.params) if p.kind == "refa")
-        n = fn.params[rp].binding(rp, fn.name)
-        lines.append(f"sim::exit_with(__f, *{n});")
-        lines.append(n)
-    elif fn.ret == "refdeps":
-        lines.append(f"let __r: &'a u64 = {depsb}.slot_ref();")
-        lines.append("sim::exit_with(__f, *__r);")
-        lines.append("__r")
-    elif fn.ret == "result":
-        lines.append(f"let __r = sim::exit(__f, &[{ch}]);")
-        lines.append("if __r & 1 == 0 { Ok(__r) } else { Err(__r) }")
-    elif fn.ret == "opt":
-        lines.append(f"let __r = sim::exit(__f, &[{ch}]);")
-        lines.append("Some(__r)")
-    elif fn.ret == "tracked":
-        lines.append(f"let __r = sim::exit(__f, &[{ch}]);")
-        lines.append("Tracked::new(__r)")
+    lines += ret_tail(fn, ch, depsb)
     body = "\n".join(indent + "    " + l for l in lines)
     below = (indent + fn.below + "\n") if fn.below else ""
     return f"{below}{indent}{vis}{asy}fn {fn.name}{g}({', '.join(params)}){ret}{w} {{\n{body}\n{indent}}}\n"
@@ -590,6 +602,33 @@ module("mndh", "Mndh", [
     Fn("mn_u32", ("nodeps", []), ["u64"], ret="u32r"),
 ], opts="no_deps")
 
+
+# ==== systematic matrices: parameter kinds, return kinds, arities ==========
+MATRIX_KINDS = [k for k in KINDS if k not in ("refa", "gen", "genm", "arrN", "u64")]
+ASYNC_SKIP = {"fn"}        # not Send
+for k in MATRIX_KINDS:
+    single(Fn(f"k_{k}", ("impl", ["F0"]), [k, "u64", k]))
+    if k not in ASYNC_SKIP:
+        single(Fn(f"ak_{k}", ("impl", ["Af0"]), [k, "u64", k], is_async=True))
+MATRIX_RETS = ["u64", "unit", "explicit_unit", "result", "opt", "tracked", "implfp", "boolr", "u8r", "u32r", "i32r", "usizer"]
+for r in MATRIX_RETS:
+    single(Fn(f"rk_{r}", ("impl", ["F0"]), ["u64", "u64"], ret=r, calls=["f0"]))
+    single(Fn(f"ark_{r}", ("impl", ["Af0"]), ["u64", "u64"], ret=r, is_async=True, calls=["af0"]))
+    single(Fn(f"rk0_{r}", ("any", []), [], ret=r))
+    single(Fn(f"ndk_{r}", ("nodeps", []), ["u64", "u64"], opts="no_deps", ret=r))
+    single(Fn(f"ndk0_{r}", ("nodeps", []), [], opts="no_deps", ret=r))
+    single(Fn(f"andk0_{r}", ("nodeps", []), [], opts="no_deps", ret=r, is_async=True))
+for n in range(0, 9):
+    single(Fn(f"ary{n}", ("impl", ["F0"]), ["u64"] * n, props=("C01", "C14")))
+    single(Fn(f"aary{n}", ("impl", ["Af0"]), ["u64"] * n, is_async=True, props=("C01", "C14")))
+    single(Fn(f"ndary{n}", ("nodeps", []), ["u64"] * n, opts="no_deps"))
+HOMOG_RETS = ["u64", "unit"]
+module("mk", "Mk", [Fn(f"mk_{r}", ("impl", ["F0"]), ["u64", "u64"], ret=r) for r in HOMOG_RETS]
+       + [Fn(f"amk_{r}", ("impl", ["Af0"]), ["u64", "u64"], ret=r, is_async=True) for r in HOMOG_RETS])
+module("mkh", "Mkh", [Fn(f"mkh_{r}", ("impl", ["F0"]), ["u64", "u64"], ret=r) for r in MATRIX_RETS if r not in HOMOG_RETS]
+       + [Fn(f"amkh_{r}", ("impl", ["Af0"]), ["u64", "u64"], ret=r, is_async=True) for r in MATRIX_RETS if r not in HOMOG_RETS])
+module("mkk", "Mkk", [Fn(f"mkk_{k}", ("impl", ["F0"]), [k, "u64"]) for k in MATRIX_KINDS])
+
 N_PLAIN = METHOD_COUNTER[0]
 
 # ---- write corpus prelude -------------------------------------------------
@@ -639,7 +678,7 @@ def decl_text(fn):
     g = method_generics(fn)
     slf = "&'a self" if fn.ret == "refdeps" else "&self"
     params = [slf] + [p.sig(i, fn.name) for i, p in enumerate(fn.params)]
-    ret = {"u64": " -> u64", "unit": "", "refarg": " -> &'a u64", "tracked": " -> Tracked"}[fn.ret]
+    ret = RET_TEXT[fn.ret]
     asy = "async " if fn.is_async else ""
     attrs = f"    {fn.attrs}\n" if fn.attrs else ""
     if fn.default_body:
@@ -653,7 +692,7 @@ def self_impl_fn_text(fn, id_expr):
     """hand-written provider impl of one trait method (simulator-owned leaf)"""
     g = method_generics(fn)
     params = ["&self"] + [p.sig(i, fn.name) for i, p in enumerate(fn.params)]
-    ret = {"u64": " -> u64", "unit": "", "refarg": " -> &'a u64", "tracked": " -> Tracked"}[fn.ret]
+    ret = RET_TEXT[fn.ret]
     asy = "async " if fn.is_async else ""
     attrs = f"    {fn.attrs}\n" if fn.attrs else ""
     fps = []
@@ -662,16 +701,7 @@ def self_impl_fn_text(fn, id_expr):
     lines = [f"let __f = sim::enter({id_expr}, sim::addr(self), &[{', '.join(fps)}]);", "sim::user_alloc(&__f);"]
     if fn.is_async:
         lines.append("sim::pause(&__f).await;")
-    if fn.ret == "u64":
-        lines.append("sim::exit(__f, &[])")
-    elif fn.ret == "unit":
-        lines.append("let _ = sim::exit(__f, &[]);")
-    elif fn.ret == "refarg":
-        rp = next(i for i, p in enumerate(fn.params) if p.kind == "refa")
-        n = fn.params[rp].binding(rp, fn.name)
-        lines += [f"sim::exit_with(__f, *{n});", n]
-    elif fn.ret == "tracked":
-        lines += ["let __r = sim::exit(__f, &[]);", "Tracked::new(__r)"]
+    lines += ret_tail(fn, "")
     body = "\n".join("        " + l for l in lines)
     return f"{attrs}    {asy}fn {fn.name}{g}({', '.join(params)}){ret} {{\n{body}\n    }}\n"
 
@@ -689,6 +719,7 @@ def trait_section(name, delegate, methods, async_trait=False, generic=False, sup
         fn.method_id = METHOD_COUNTER[0]
         METHOD_COUNTER[0] += 1
         fn.section = "trait"
+        assert fn.name not in ALL_FNS, fn.name
         fn.props = ["C06"] + (["C14"] if delegate == "self" and not async_trait else [])
         fn.dynamic = delegate != "self" or async_trait
         METHODS.append(fn)
@@ -812,6 +843,21 @@ trait_section("ABorrow", "borrow", [
     Fn("ab_unit", SELF, ["u64"], ret="unit", is_async=True),
 ], async_trait=True, supers=": Sync + 'static")
 
+
+# ==== systematic matrices for entraited traits and dependency inversion ====
+TRAIT_RETS_H = [r for r in MATRIX_RETS if r not in HOMOG_RETS]
+trait_section("PlainK", "self", [Fn(f"pk_{r}", SELF, ["u64", "u64"], ret=r) for r in HOMOG_RETS]
+              + [Fn(f"apk_{r}", SELF, ["u64", "u64"], ret=r, is_async=True) for r in HOMOG_RETS])
+trait_section("PlainKH", "self", [Fn(f"pkh_{r}", SELF, ["u64", "u64"], ret=r) for r in TRAIT_RETS_H]
+              + [Fn(f"apkh_{r}", SELF, ["u64", "u64"], ret=r, is_async=True) for r in TRAIT_RETS_H])
+DYN_RETS_H = [r for r in TRAIT_RETS_H if r != "implfp"]
+trait_section("ByRefKH", "ref", [Fn(f"rkh_{r}", SELF, ["u64", "u64"], ret=r) for r in DYN_RETS_H], supers=": 'static")
+trait_section("ByBorrowKH", "borrow", [Fn(f"bkh_{r}", SELF, ["u64", "u64"], ret=r) for r in DYN_RETS_H], supers=": 'static")
+trait_section("ARefKH", "ref", [Fn(f"arkh_{r}", SELF, ["u64", "u64"], ret=r, is_async=True) for r in DYN_RETS_H],
+              async_trait=True, supers=": Sync + 'static")
+trait_section("PlainKK", "self", [Fn(f"pkk_{k}", SELF, [k, "u64"]) for k in MATRIX_KINDS if k not in ("iter", "into", "fn", "fnsend", "fnmut", "fnonce")])
+trait_section("PlainAr", "self", [Fn(f"par{n}", SELF, ["u64"] * n) for n in range(0, 9)])
+trait_section("ByRefAr", "ref", [Fn(f"rar{n}", SELF, ["u64"] * n) for n in range(0, 7)], supers=": 'static")
 # the slot trait used by ret_refdeps (plain accessor, not recorded)
 corpus.append("""#[entrait]
 pub trait SlotRef {
@@ -847,6 +893,7 @@ def inversion(trait, impl_trait, mode, methods, delegate_ident=None, async_trait
         decl.method_id = METHOD_COUNTER[0]
         METHOD_COUNTER[0] += 1
         decl.section = "inversion"
+        assert decl.name not in ALL_FNS, decl.name
         decl.dynamic = mode == "dyn" or async_trait
         decl.props = ["C07"] + ([] if decl.dynamic else ["C14"])
         METHODS.append(decl)
@@ -959,6 +1006,20 @@ inversion("ADynInv", "ADynInvImpl", "dyn", [
     (Fn("ad_sync", SELF, ["u64", "u64"]), ("any", []), []),
 ], async_trait=True)
 
+
+inversion("InvK", "InvKImpl", "static",
+          [(Fn(f"ik_{r}", SELF, ["u64", "u64"], ret=r), ("impl", ["F0"]), ["f0"]) for r in HOMOG_RETS]
+          + [(Fn(f"aik_{r}", SELF, ["u64", "u64"], ret=r, is_async=True), ("impl", ["Af0"]), ["af0"]) for r in HOMOG_RETS]
+          + [(Fn(f"iar{n}", SELF, ["u64"] * n), ("any", []), []) for n in range(0, 9)],
+          delegate_ident="DelegateInvK")
+inversion("InvKH", "InvKHImpl", "static",
+          [(Fn(f"ikh_{r}", SELF, ["u64", "u64"], ret=r), ("impl", ["F0"]), ["f0"]) for r in TRAIT_RETS_H]
+          + [(Fn(f"aikh_{r}", SELF, ["u64", "u64"], ret=r, is_async=True), ("impl", ["Af0"]), ["af0"]) for r in TRAIT_RETS_H]
+          + [(Fn(f"ikk_{k}", SELF, [k, "u64"]), ("any", []), []) for k in MATRIX_KINDS if k not in ("iter", "into", "fn", "fnsend", "fnmut", "fnonce")],
+          delegate_ident="DelegateInvKH")
+inversion("DynInvKH", "DynInvKHImpl", "dyn",
+          [(Fn(f"dkh_{r}", SELF, ["u64", "u64"], ret=r), ("impl", ["F0"]), ["f0"]) for r in DYN_RETS_H])
+inversion("DynInvAr", "DynInvArImpl", "dyn", [(Fn(f"dar{n}", SELF, ["u64"] * n), ("any", []), []) for n in range(0, 7)])
 # --------------------------------------------------------------------------
 # un-mock section (C11): exported mock APIs; in the default build these are
 # ordinary entraited functions exercised through Impl<T> (C01)
@@ -990,6 +1051,13 @@ usingle(Fn("au_unit", ("impl", ["Au0"]), ["u64", "u64"], ret="unit", is_async=Tr
 usingle(Fn("u_unit", ("impl", ["U0"]), ["u64", "u64"], ret="unit", calls=["u0"]), "UUnitMock")
 usingle(Fn("und4", ("nodeps", []), ["u64", "u64", "u64", "u64"], opts="no_deps"), "Und4Mock")
 usingle(Fn("aund_unit", ("nodeps", []), ["u64", "u64"], opts="no_deps", ret="unit", is_async=True), "AundUnitMock")
+
+for r in ["unit", "boolr", "u32r", "result", "opt"]:
+    usingle(Fn(f"uk_{r}", ("impl", ["U0"]), ["u64", "u64"], ret=r, calls=["u0"]), f"Uk{r.capitalize()}Mock")
+    usingle(Fn(f"undk_{r}", ("nodeps", []), ["u64", "u64"], opts="no_deps", ret=r), f"Undk{r.capitalize()}Mock")
+for n in range(0, 7):
+    usingle(Fn(f"undar{n}", ("nodeps", []), ["u64"] * n, opts="no_deps"), f"Undar{n}Mock")
+    usingle(Fn(f"uar{n}", ("impl", ["U0"]), ["u64"] * n), f"Uar{n}Mock")
 um_fns = [
     Fn("uma", ("impl", ["U0"]), ["u64", "u64"], calls=["u0"]),
     Fn("umb", ("impl", ["U0"]), ["u64", "u64"], calls=["u0"]),
@@ -1019,7 +1087,7 @@ for name in ("conc2", "conc_ret", "aconc2"):
     lt = "<'a>" if lifetimes(fn) else ""
     params = ["&self"] + [p.sig(i, fn.name) for i, p in enumerate(fn.params)]
     args = ", ".join(p.binding(i, fn.name) for i, p in enumerate(fn.params))
-    ret = {"u64": " -> u64", "refarg": " -> &'a u64"}[fn.ret]
+    ret = RET_TEXT[fn.ret]
     asy = "async " if fn.is_async else ""
     aw = ".await" if fn.is_async else ""
     conc_adopt += ((HET if fn.hetero else "") + f"/// hand-written adoption of the leaf trait by the application (second hop)\n"
